@@ -244,8 +244,7 @@ deriving Repr, DecidableEq
 def parseNat? (s : String) : Option Nat :=
   if allDigits s.toList then some (natVal s.toList) else none
 
-def family (dt : String) : Family :=
-  match splitColon dt with
+def familyOf : List String → Family
   | ["datetime"] => .datetime
   | ["sequence"] => .sequence
   | ["number", k] => if k == "float" || k == "double" then .float false
@@ -266,7 +265,6 @@ def family (dt : String) : Family :=
       | _, _ => .unknown
   | ["uuid"] => .uuid
   | ["boolean"] => .boolean
-  | "enum" :: vs => .enum vs
   | ["ip", "v4"] => .ipv4
   | ["ip", "v6"] => .ipv6
   | ["geo", "point"] => .geo
@@ -278,6 +276,11 @@ def family (dt : String) : Family :=
   | "uri" :: _ => .uri
   | ["file"] => .file
   | _ => .unknown
+
+def family (dt : String) : Family :=
+  match splitColon dt with
+  | "enum" :: vs => .enum vs
+  | parts => familyOf parts
 
 /-- Character classes for the string family are supplied by the harness per value (Unicode general
 categories are data, not logic): does the value contain an upper-case (Lu) / lower-case (Ll)
